@@ -31,7 +31,7 @@ def layout_param(rng, name, kind):
         return {"name": name, "type": defgen.int_type(name, n, "unsigned")}, n
     if kind == "sint":
         n = rng.choice([2, 8, 12, 16, 32, 64])
-        return {"name": name, "type": defgen.int_type(name, n, rng.choice(["signed", "twosComplement"]))}, n
+        return {"name": name, "type": defgen.int_type(name, n, rng.choice(defgen.SIGNED_SPELLINGS))}, n
     if kind == "f16":
         return {"name": name, "type": {"name": name + "_T", "kind": "float", "enc": {"t": "num", "size": 16, "kind": "IEEE754", "order": "msb", "default": None, "context": None}}}, 16
     if kind == "f32":
